@@ -143,7 +143,7 @@ typedef __int128 i128;
 struct Raw { i128 i; long double f; };
 struct Num { i128 i; long double f; int kind; };      // kind: 0 int, 1 f32, 2 f64, 3 f80
 enum { K_ADD, K_SUB, K_ZADD, K_RADD, K_RSUB, K_RZADD, K_IN, K_PADD, K_ZPADD,
-       K_PE, K_ME, K_INM, K_INR, K_IND,
+       K_PE, K_ME, K_INM, K_INR, K_IND, K_ZSUB,
        K_I0, K_I1, K_I2, K_I3, K_I4, K_I5, K_I6, K_I7, K_I8, K_I9, K_I10, K_I11, K_N };
 #define K_ILAST K_I11
 // qz/zq: `q op ZERO` / `ZERO op q` spelled with the constant; qt/tq: spelled with a temporary `Zero{}` and a named
@@ -228,6 +228,15 @@ struct Inst {
         // compound assignment: the operand slot is a Quantity
         Q pe = q; pe += au::ZERO; Q me = q; me -= au::ZERO;
         Conv<R>::put(o.v[K_PE], pe.in(U{})); Conv<R>::put(o.v[K_ME], me.in(U{}));
+        // ZERO - q (not named by the statement; modelled and proved up to the inherent 0 - INT_MIN overflow): evaluated
+        // only where the model says it neither overflows nor wraps, so that the UB counters stay meaningful
+        o.v[K_ZSUB].kind = -1; o.v[K_ZSUB].i = 0; o.v[K_ZSUB].f = 0;
+        {
+            using ZDifQ = decltype(au::ZERO - std::declval<Q>());
+            const bool safe = std::is_floating_point<R>::value || sizeof(R) < 4 ||
+                              (std::is_signed<R>::value ? !(x == std::numeric_limits<R>::lowest()) : (x == 0));
+            if (safe) Conv<typename ZDifQ::Rep>::put(o.v[K_ZSUB], (au::ZERO - q).in(typename ZDifQ::Unit{}));
+        }
         // a point plus ZERO: the right operand is a *quantity* slot (Diff)
         const P p = au::make_quantity_point<U>(x);
         const auto ps = p + au::ZERO; const auto zps = au::ZERO + p;
@@ -350,11 +359,11 @@ int main(int argc, char** argv) {
             const Entry* e = find(id); if (!e) { puts("bad"); continue; }
             Raw r = parse_raw(*e, a); Obs o; long ub0 = g_ub;
             e->eval(r, o);
-            printf("P %d %s qz=%s zq=%s qt=%s tq=%s rqz=%s rzq=%s in=%s inm=%s inr=%s ind=%s pe=%s me=%s add=%s sub=%s zadd=%s radd=%s rsub=%s rzadd=%s padd=%s zpadd=%s ptype=%d%d init=",
+            printf("P %d %s qz=%s zq=%s qt=%s tq=%s rqz=%s rzq=%s in=%s inm=%s inr=%s ind=%s pe=%s me=%s zsub=%s add=%s sub=%s zadd=%s radd=%s rsub=%s rzadd=%s padd=%s zpadd=%s ptype=%d%d init=",
                    id, a, bits6(o.qz).c_str(), bits6(o.zq).c_str(), bits6(o.qt).c_str(), bits6(o.tq).c_str(),
                    bits6(o.rqz).c_str(), bits6(o.rzq).c_str(),
                    fmt(o.v[K_IN]).c_str(), fmt(o.v[K_INM]).c_str(), fmt(o.v[K_INR]).c_str(), fmt(o.v[K_IND]).c_str(),
-                   fmt(o.v[K_PE]).c_str(), fmt(o.v[K_ME]).c_str(), fmt(o.v[K_ADD]).c_str(), fmt(o.v[K_SUB]).c_str(), fmt(o.v[K_ZADD]).c_str(),
+                   fmt(o.v[K_PE]).c_str(), fmt(o.v[K_ME]).c_str(), fmt(o.v[K_ZSUB]).c_str(), fmt(o.v[K_ADD]).c_str(), fmt(o.v[K_SUB]).c_str(), fmt(o.v[K_ZADD]).c_str(),
                    fmt(o.v[K_RADD]).c_str(), fmt(o.v[K_RSUB]).c_str(), fmt(o.v[K_RZADD]).c_str(),
                    fmt(o.v[K_PADD]).c_str(), fmt(o.v[K_ZPADD]).c_str(), int(o.padd_eq), int(o.zpadd_eq));
             for (int k = K_I0; k <= K_ILAST; ++k) printf("%s%s", k == K_I0 ? "" : ",", fmt(o.v[k]).c_str());
@@ -394,7 +403,8 @@ int main(int argc, char** argv) {
                 if (e->d.fkind == 0) {
                     v_ok = o.v[K_ADD].i == x && o.v[K_SUB].i == x && o.v[K_ZADD].i == x && o.v[K_IN].i == x &&
                            o.v[K_PADD].i == x && o.v[K_ZPADD].i == x && o.v[K_PE].i == x && o.v[K_ME].i == x &&
-                           o.v[K_INM].i == x && o.v[K_INR].i == x && o.v[K_IND].i == x;
+                           o.v[K_INM].i == x && o.v[K_INR].i == x && o.v[K_IND].i == x &&
+                           (o.v[K_ZSUB].kind < 0 || o.v[K_ZSUB].i == -x);
                     if (o.v[K_ADD].i != o.v[K_RADD].i || o.v[K_SUB].i != o.v[K_RSUB].i || o.v[K_ZADD].i != o.v[K_RZADD].i) r_ok = false;
                     for (int k = K_I0; k <= K_ILAST; ++k) if (o.v[k].i != 0 || o.v[k].kind != 0) i_ok = false;
                 } else {
@@ -405,6 +415,13 @@ int main(int argc, char** argv) {
                         if (cl == 3) { if (cls_f32(yb) != 3) v_ok = false; }
                         else if (cl == 1) { if (cls_f32(yb) != 1) v_ok = false; if ((ks[j] == K_SUB || ks[j] == K_ME || ks[j] >= K_INM) && yb != b) v_ok = false; }
                         else if (yb != b) v_ok = false;
+                    }
+                    {   // ZERO - q: -x bit for bit, (+0) - (±0) = +0, NaN stays NaN
+                        float y = (float)o.v[K_ZSUB].f; uint32_t yb; memcpy(&yb, &y, 4);
+                        if (o.v[K_ZSUB].kind < 0) v_ok = false;
+                        else if (cl == 3) { if (cls_f32(yb) != 3) v_ok = false; }
+                        else if (cl == 1) { if (yb != 0) v_ok = false; }
+                        else if (yb != (b ^ 0x80000000u)) v_ok = false;
                     }
                     const int rs[3] = {K_RADD, K_RSUB, K_RZADD};
                     for (int j = 0; j < 3; ++j) {
